@@ -142,6 +142,8 @@ def merge_back_oracles(case, w, data, aff, dim, pieces):
     from dcmstack.dcmmeta import NiftiWrapper
     fails = {'C05': [], 'C07': [], 'C13': [], 'C03': []}
     before = [snap(p) for p in pieces]
+    before_sem = [(np.asanyarray(p.nii_img.dataobj).copy(), p.nii_img.affine.copy(),
+                   M.canon_model_ext(M.ext_to_model(p.meta_ext))) for p in pieces]
     try:
         back = NiftiWrapper.from_sequence(pieces, dim)
     except Exception as e:
@@ -160,6 +162,31 @@ def merge_back_oracles(case, w, data, aff, dim, pieces):
         fails['C05'].append('extension after split(%d)+merge differs: %s vs %s' % (
             dim, json.dumps(a)[:200], json.dumps(b)[:200]))
     fails['C07'] += ['merged: ' + f for f in img_matches(back, full_affine=True)]
+    # the same pieces merged once more give the same image (a merge must not have used up or
+    # altered its inputs)
+    try:
+        back2 = NiftiWrapper.from_sequence(pieces, dim)
+        a2 = M.ext_to_model(back2.meta_ext)
+        if not np.array_equal(np.asanyarray(back2.nii_img.dataobj), bd) or a2 is None or \
+                M.canon_model_ext(a2) != M.canon_model_ext(a):
+            fails['C05'].append('merging the pieces of split(%d) a second time gives a different image / extension' % dim)
+    except Exception as e:
+        fails['C05'].append('merging the pieces of split(%d) a second time raised %r' % (dim, e))
+    # conversely: splitting the merged image gives back the pieces (data and extension as they were
+    # before the merge)
+    try:
+        again = list(back.split(dim))
+        if len(again) != len(pieces):
+            fails['C05'].append('split(%d) of the merged image yields %d pieces, %d were merged' % (dim, len(again), len(pieces)))
+        else:
+            for i, (p2, (d0, a0, e0)) in enumerate(zip(again, before_sem)):
+                m2 = M.ext_to_model(p2.meta_ext)
+                if not np.array_equal(np.asanyarray(p2.nii_img.dataobj), d0) or \
+                        not np.allclose(p2.nii_img.affine, a0, atol=1e-3) or m2 is None or M.canon_model_ext(m2) != e0:
+                    fails['C05'].append('piece %d of split(%d) of the merged image differs from input %d as it was before the merge' % (i, dim, i))
+                    break
+    except Exception as e:
+        fails['C05'].append('split(%d) of the merged image raised %r' % (dim, e))
     return fails
 
 
